@@ -10,7 +10,8 @@ EXPLANATION = (
     "run_tree and the callee closure of run_tree_list contains no user-reaching callee. R14.3: every should_ignore(x) "
     "site: x derives from the runner's bench_options.ignore merged over the inherited entry options, runner first, "
     "and is evaluated for leaves only. R14.4: run_tree_list prints exactly one line per argument-less leaf, one per "
-    "element of the leaf's args, and only recurses for parents. Decides these clauses exactly; not the printed text.")
+    "element of the leaf's args, and only recurses for parents. Decides these clauses exactly; not the printed text."
+    ' R14.4 also: the argument lines are printed from the args of the Leaf being visited (the list the filters already pruned), identified as a canonical value expression, whether by a for loop or by for_each. R14.5 the Exact arm of Filter::is_match is whole-string equality of filter text and candidate path (round trip of listed paths).')
 NOT_DECIDED = ["textual equality of printed lines with cargo-nextest's expectations", "uniqueness of display paths"]
 
 USER_REACHING = ("benchmark::Bencher::new", "benchmark::BenchContext::new", "benchmark::BenchContext::compute_stats")
